@@ -22,6 +22,18 @@ REPRESENTATIVES = {
     "bstr16": b"\x50" + bytes(range(16)),
     "bstr_cbor_int": b"\x41\x05",
     "bstr_indef": b"\x5f\x41a\x41b\xff",
+    # byte strings whose *content* is a truncated CBOR item: unions decode the content of byte strings by trial
+    "bstr_trunc_uint16": b"\x41\x19",
+    "bstr_trunc_uint64": b"\x42\x1b\x00",
+    "bstr_trunc_bstr16": b"\x41\x59",
+    "bstr_trunc_bstr32": b"\x42\x5a\x00",
+    "bstr_trunc_tstr32": b"\x42\x7a\x31",
+    "bstr_trunc_arr16": b"\x42\x99\x00",
+    "bstr_trunc_map64": b"\x43\xbb\x00\x00",
+    "bstr_trunc_tag": b"\x41\xd8",
+    "bstr_trunc_float": b"\x42\xf9\x3e",
+    "bstr_trunc_in_array": b"\x43\x82\x01\x19",
+    "bstr_break_only": b"\x41\xff",
     "tstr0": b"\x60",
     "tstr1": b"\x61x",
     "tstr_bad_utf8": b"\x62\xc3\x28",
@@ -237,6 +249,26 @@ def apply(data: bytes, spec: dict) -> bytes:
         if t is None:
             return bytes(b)
         return drop_node(t, spec["path"])
+    if k == "grow":
+        # make one array n times as long by repeating its elements (well-formed, just large)
+        t = build(data)
+        if t is None:
+            return bytes(b)
+        node = _at(t, spec["path"])
+        if node.kind != "arr" or not node.children:
+            return bytes(b)
+        kids = [ser(c) for c in node.children]
+        reps = max(1, spec["n"] // len(kids))
+        return replace_node(t, spec["path"], cborr._enc_head(4, len(kids) * reps) + b"".join(kids) * reps)
+    if k == "growstr":
+        t = build(data)
+        if t is None:
+            return bytes(b)
+        node = _at(t, spec["path"])
+        if node.kind != "leaf" or (node.raw[0] >> 5) not in (2, 3):
+            return bytes(b)
+        major = node.raw[0] >> 5
+        return replace_node(t, spec["path"], cborr._enc_head(major, spec["n"]) + (b"A" * spec["n"]))
     if k == "nest_seq":
         # replace node at path by a command sequence nested `depth` times through try-each / run-sequence
         t = build(data)
@@ -288,6 +320,23 @@ def family_inflations(data):
         if major in (2, 3, 4, 5):
             for w, val in ((2, 0xFFFF), (4, 0x7FFFFFFF), (4, 0xFFFFFFFF), (8, 0x100000000), (8, 2**63), (8, 2**64 - 1)):
                 out.append({"k": "inflate", "at": off, "width": w, "value": val})
+    return out
+
+
+def family_growth(data):
+    """Well-formed but large: arrays repeated to 100 / 1000 / 5000 elements, strings of 10^4 / 10^5 bytes."""
+    t = build(data)
+    if t is None:
+        return []
+    out = []
+    arrs = [p for p in paths(t) if _at(t, p).kind == "arr" and _at(t, p).children]
+    strs = [p for p in paths(t) if _at(t, p).kind == "leaf" and len(_at(t, p).raw) > 1 and (_at(t, p).raw[0] >> 5) in (2, 3)]
+    for p in arrs:
+        for n in (100, 1000, 5000):
+            out.append({"k": "grow", "path": list(p), "n": n})
+    for p in strs:
+        for n in (10000, 100000):
+            out.append({"k": "growstr", "path": list(p), "n": n})
     return out
 
 
